@@ -481,6 +481,12 @@ pub fn level_fields(level: &J) -> Vec<P> {
                         build_node(&c)
                     })
                     .collect();
+                let mut cmds = cmds;
+                for p in arr(tail, "else_pos") {
+                    let mut p = p.clone();
+                    p["kind"] = J::String("pos".into());
+                    cmds.push(build_node(&p));
+                }
                 let mut c = alt(cmds);
                 if b(tail, "optional") {
                     c = c
